@@ -21,6 +21,8 @@
 (*     q    <<[n, text, raw, dict]>>  HtmlWriter.get_section(lines,          *)
 (*          trim=False) (judged if text = 1) and HtmlWriter.get_dictionary   *)
 (*     fam  as above through HtmlWriter.get_sections / get_dictionaries      *)
+(*     gamedir  the directory created under the output directory; skool:     *)
+(*          base name of the skool file                                       *)
 (*     cfg  <<configuration record>> (one or none), see below                *)
 (* k = "cfg"     a command run with skoolkit.ini and -I options              *)
 (*     cfg  <<[tool, def, ints, ini, cli, shown, shownc, eff]>>              *)
@@ -49,7 +51,8 @@ Restrict(f, S) == [x \in DOMAIN f \cap S |-> f[x]]
 DriftVerdicts == {"drift:malformed-number", "drift:show-config-before-ini-options", "drift:order", "drift:variant", "drift:auto-order",
                   "drift:append-replaces-built-in-section", "drift:config-line-added-twice"}
 IsDrift(s) == s \in DriftVerdicts
-Soft(s) == s = "ok" \/ IsDrift(s)
+\* accepted when another variant / order is tried: "ok" or one of skoolkit's standing deviations
+Soft(s) == s \in {"ok", "drift:show-config-before-ini-options", "drift:append-replaces-built-in-section", "drift:config-line-added-twice"}
 \* the first hard failure, else the first drift, else "ok"
 First(q) == LET hard == SelectSeq(q, LAMBDA s : s # "ok" /\ ~IsDrift(s))
                 soft == SelectSeq(q, LAMBDA s : s # "ok")
@@ -133,7 +136,8 @@ SiteClauses(c, V, auto, strict) ==
            U == UserSections(auto, c.dir, c.cmd, c.cli, V)
            U2 == UserSectionsTwice(D, auto, c.dir, c.cmd, c.cli, V)
        IN [i \in 1..Len(c.uq) |-> UQClause(c.uq[i], U, U2)] \o [i \in 1..Len(c.q) |-> WQClause(c, c.q[i], D, U)]
-          \o [i \in 1..Len(c.fam) |-> WFClause(c.fam[i], D, U, strict)] \o <<CfgsClause(c.cfg, V)>>
+          \o [i \in 1..Len(c.fam) |-> WFClause(c.fam[i], D, U, strict)]
+          \o <<IF c.gamedir # GameDir(auto, c.cli, c.skool, V) THEN "game-dir" ELSE "ok">> \o <<CfgsClause(c.cfg, V)>>
 SiteClause(c, V, auto, strict) == First(SiteClauses(c, V, auto, strict))
 Perms(n) == {f \in [1..n -> 1..n] : \A i, j \in 1..n : f[i] = f[j] => i = j}
 Permuted(q, f) == [i \in 1..Len(q) |-> q[f[i]]]
